@@ -78,6 +78,48 @@ DETECT(has_capacity, std::declval<const T &>().capacity())
 DETECT(has_reserve, std::declval<T &>().reserve(typename T::size_type(1)))
 DETECT(has_index, std::declval<const T &>()[typename T::size_type(0)])
 DETECT(has_push_back, std::declval<T &>().push_back(std::declval<const typename T::value_type &>()))
+// the standard interface must be there in every configuration
+#define CIT(T) std::declval<typename T::const_iterator>()
+#define VAL(T) std::declval<const typename T::value_type &>()
+DETECT(has_insert_ilist, std::declval<T &>().insert(CIT(T), std::initializer_list<typename T::value_type>()))
+DETECT(has_insert_range, std::declval<T &>().insert(CIT(T), std::declval<const typename T::value_type *>(), std::declval<const typename T::value_type *>()))
+DETECT(has_insert_count, std::declval<T &>().insert(CIT(T), typename T::size_type(1), VAL(T)))
+DETECT(has_insert_one, std::declval<T &>().insert(CIT(T), VAL(T)))
+DETECT(has_emplace, std::declval<T &>().emplace(CIT(T), VAL(T)))
+DETECT(has_emplace_back, std::declval<T &>().emplace_back(VAL(T)))
+DETECT(has_erase1, std::declval<T &>().erase(CIT(T)))
+DETECT(has_erase2, std::declval<T &>().erase(CIT(T), CIT(T)))
+DETECT(has_assign_n, std::declval<T &>().assign(typename T::size_type(1), VAL(T)))
+DETECT(has_assign_ilist, std::declval<T &>().assign(std::initializer_list<typename T::value_type>()))
+DETECT(has_assign_range, std::declval<T &>().assign(std::declval<const typename T::value_type *>(), std::declval<const typename T::value_type *>()))
+DETECT(has_resize, std::declval<T &>().resize(typename T::size_type(1)))
+DETECT(has_resize_v, std::declval<T &>().resize(typename T::size_type(1), VAL(T)))
+DETECT(has_pop_back, std::declval<T &>().pop_back())
+DETECT(has_clear, std::declval<T &>().clear())
+DETECT(has_shrink, std::declval<T &>().shrink_to_fit())
+DETECT(has_at, std::declval<const T &>().at(typename T::size_type(0)))
+DETECT(has_front_back, (std::declval<const T &>().front(), std::declval<const T &>().back()))
+DETECT(has_swap, std::declval<T &>().swap(std::declval<T &>()))
+DETECT(has_rbegin, (std::declval<const T &>().rbegin(), std::declval<const T &>().crend()))
+DETECT(has_max_size, std::declval<const T &>().max_size())
+DETECT(has_set_insert, std::declval<T &>().insert(VAL(T)))
+DETECT(has_set_insert_hint, std::declval<T &>().insert(CIT(T), VAL(T)))
+DETECT(has_set_insert_range, std::declval<T &>().insert(std::declval<const typename T::value_type *>(), std::declval<const typename T::value_type *>()))
+DETECT(has_set_insert_ilist, std::declval<T &>().insert(std::initializer_list<typename T::value_type>()))
+DETECT(has_set_erase_key, std::declval<T &>().erase(VAL(T)))
+DETECT(has_set_find, (std::declval<const T &>().find(VAL(T)), std::declval<const T &>().count(VAL(T)), std::declval<const T &>().lower_bound(VAL(T)), std::declval<const T &>().upper_bound(VAL(T)), std::declval<const T &>().equal_range(VAL(T))))
+DETECT(has_set_emplace, (std::declval<T &>().emplace(VAL(T)), std::declval<T &>().emplace_hint(CIT(T), VAL(T))))
+template <class C> static void std_api_vec(const char *n) {
+  std::printf("\nstdapi %s %d%d%d%d%d%d%d%d%d%d%d%d%d%d%d%d%d%d%d%d%d%d%d", n, int(has_insert_ilist<C>::value), int(has_insert_range<C>::value), int(has_insert_count<C>::value), int(has_insert_one<C>::value),
+              int(has_emplace<C>::value), int(has_emplace_back<C>::value), int(has_erase1<C>::value), int(has_erase2<C>::value), int(has_assign_n<C>::value), int(has_assign_ilist<C>::value),
+              int(has_assign_range<C>::value), int(has_resize<C>::value), int(has_resize_v<C>::value), int(has_pop_back<C>::value), int(has_clear<C>::value), int(has_shrink<C>::value), int(has_at<C>::value),
+              int(has_front_back<C>::value), int(has_swap<C>::value), int(has_rbegin<C>::value), int(has_max_size<C>::value), int(has_push_back<C>::value), int(has_data<C>::value));
+}
+template <class C> static void std_api_set(const char *n) {
+  std::printf("\nstdapi %s %d%d%d%d%d%d%d%d%d%d%d%d", n, int(has_set_insert<C>::value), int(has_set_insert_hint<C>::value), int(has_set_insert_range<C>::value), int(has_set_insert_ilist<C>::value),
+              int(has_set_erase_key<C>::value), int(has_erase1<C>::value), int(has_erase2<C>::value), int(has_set_find<C>::value), int(has_set_emplace<C>::value), int(has_clear<C>::value),
+              int(has_swap<C>::value), int(has_rbegin<C>::value));
+}
 // compile-time facts a program can print: they must not depend on the build configuration either
 template <int S> struct B3 { unsigned char b[S]; };
 struct NT { int v; NT() : v(0) {} NT(const NT &o) : v(o.v) {} NT(NT &&o) noexcept : v(o.v) {} NT &operator=(const NT &o) { v = o.v; return *this; } NT &operator=(NT &&o) noexcept { v = o.v; return *this; } ~NT() {} };
@@ -109,6 +151,7 @@ int main() {
     0
 #endif
   );
+  std_api_vec<V>("vector"); std_api_vec<SV>("SmallVector"); std_api_vec<F>("FixedCapacityVector"); std_api_set<S>("FlatSet");
   facts_for<char>("char"); facts_for<short>("short"); facts_for<B3<3> >("b3"); facts_for<B3<5> >("b5"); facts_for<B3<6> >("b6"); facts_for<B3<7> >("b7"); facts_for<int>("int");
   facts_for<double>("double"); facts_for<NT>("nontrivial"); facts_for<TS>("throwing_swap"); facts_for<TA>("tr_throwing_assign"); facts_for<TM>("throwing_move");
   facts_for<std::pair<int, NT> >("pair_int_nt"); facts_for<std::pair<char, int> >("pair_char_int");
@@ -151,6 +194,39 @@ def run(tier, seed, only=None):
     cfgs = VEC + FS + SS
     if only:
         cfgs = [only[0]]
+    # ---- compile-time probes first: a standard member missing in one configuration would already break the interpreters' build
+    absent = D.pool_map(lambda b: (b, absent_probe(b, work)), builds) if not only else []
+    absent_msgs = [m for (_, (got, m)) in absent if m]
+    for (b, (got, m)) in absent:
+        if not got:
+            continue
+        for line in got[1].splitlines():
+            w = line.split()
+            if len(w) == 3 and w[0] == 'stdapi' and set(w[2]) != {'1'}:
+                absent_msgs.append('%s: a member of the standard interface of %s is not callable (detection bits %s; 0 = absent or inaccessible)' % (bname(b), w[1], w[2]))
+    # compile-time facts (sizeof, noexcept, traits) printed by the same probe: identical in every build
+    facts = [(b, got[1]) for (b, (got, m)) in absent if got]
+    if facts:
+        ref_b, ref = facts[0]
+        for b, f in facts[1:]:
+            if f != ref:
+                la, lb = ref.splitlines(), f.splitlines()
+                for x, y in zip(la, lb):
+                    if x != y:
+                        wa, wb = x.split(), y.split()
+                        d = [(p, q) for p, q in zip(wa, wb) if p != q][:3]
+                        absent_msgs.append('compile-time facts differ between %s and %s for "%s": %s (name:sizeof/alignof/nothrow move-construct, move-assign, swap, trivially relocatable, trivially destructible)'
+                                           % (bname(ref_b), bname(b), ' '.join(wa[:2]), ', '.join('%s vs %s' % pq for pq in d)))
+                        break
+                break
+
+    def early_result(absent, absent_msgs):
+        return {'mismatches': [], 'absent_msgs': absent_msgs, 'stats': {'tapes': 0, 'nontrivial_tapes': 0, 'transcripts': 0, 'ops': 0, 'distinct_nontrivial': 0},
+                'groups': {}, 'samples': [], 'builds': [bname(b) for b in builds], 'wall': time.time() - t0,
+                'absence_table': {bname(b): got[0] for (b, (got, m)) in absent if got}, 'static_fact_lines': 0}
+    if absent_msgs and not only:
+        shutil.rmtree(work, ignore_errors=True)
+        return early_result(absent, absent_msgs)
     # ---- build everything
     units = {}
     for cfg in cfgs:
@@ -238,24 +314,6 @@ def run(tier, seed, only=None):
                                        'tape_text': tapes_txt[tno] if tno < len(tapes_txt) else ''})
                     break
         per_group['%s/L%d' % (cfg, level)] = {'builds': names, 'tapes': len(ref) - 1}
-    # ---- absence
-    absent = D.pool_map(lambda b: (b, absent_probe(b, work)), builds) if not only else []
-    absent_msgs = [m for (_, (got, m)) in absent if m]
-    # compile-time facts (sizeof, noexcept, traits) printed by the same probe: identical in every build
-    facts = [(b, got[1]) for (b, (got, m)) in absent if got]
-    if facts:
-        ref_b, ref = facts[0]
-        for b, f in facts[1:]:
-            if f != ref:
-                la, lb = ref.splitlines(), f.splitlines()
-                for x, y in zip(la, lb):
-                    if x != y:
-                        wa, wb = x.split(), y.split()
-                        d = [(p, q) for p, q in zip(wa, wb) if p != q][:3]
-                        absent_msgs.append('compile-time facts differ between %s and %s for "%s": %s (name:sizeof/alignof/nothrow move-construct, move-assign, swap, trivially relocatable, trivially destructible)'
-                                           % (bname(ref_b), bname(b), ' '.join(wa[:2]), ', '.join('%s vs %s' % pq for pq in d)))
-                        break
-                break
     shutil.rmtree(work, ignore_errors=True)
     stats['distinct_nontrivial'] = len(distinct)
     return {'mismatches': mismatches, 'absent_msgs': absent_msgs, 'stats': stats, 'groups': per_group, 'samples': samples,
